@@ -97,12 +97,19 @@ package tcell
 //@ pred cbwf(cb *CellBuffer) = cb.w >= 0 && cb.h >= 0 && len(cb.cells) == cb.w*cb.h
 //@ pred inRange(cb *CellBuffer, x int, y int) = x >= 0 && y >= 0 && x < cb.w && y < cb.h
 //@ pred sameCurr(a cell, b cell) = a.currMain == b.currMain && a.currComb == b.currComb && a.currStyle == b.currStyle && a.width == b.width
+// the width tcell gives a rune as primary cell content: 0 for format characters (category Cf), else go-runewidth's
+//@ spec cellW(r rune) int = isFormatRune(r) ? 0 : runeWidth(r)
+//@ func cellWidth
+//@   arith math
+//@   ensures [def] result == cellW(r) && 0 <= result && result <= 2
+//@   modifies nothing
+
 // representation invariant behind "the reported width is that of the rune": every cell's stored width is the width of
 // its stored rune (a never-written cell holds rune 0 - or, once marked clean, a space - with width 0 and is handed out as a blank).
 // SetDirty(x, y, false) turns a stored rune 0 into a space without touching the width: that keeps the invariant because
-// runeWidth(0) == 0, a fact about go-runewidth established by C09's evaluation of its source at code point 0 and
+// cellW(0) == 0, a fact about go-runewidth and the Cf table established by C09's evaluation of cellWidth at code point 0 and
 // stated as an explicit hypothesis of the clause that needs it.
-//@ pred cellwidthok(c cell) = c.width == runeWidth(c.currMain) || (c.width == 0 && (c.currMain == 0 || c.currMain == ' '))
+//@ pred cellwidthok(c cell) = c.width == cellW(c.currMain) || (c.width == 0 && (c.currMain == 0 || c.currMain == ' '))
 //@ pred cbwidthinv(cb *CellBuffer) = forall k int :: 0 <= k && k < len(cb.cells) ==> cellwidthok(cb.cells[k])
 //@ pred cbwidths(cb *CellBuffer) = forall k int :: 0 <= k && k < len(cb.cells) ==> cb.cells[k].width >= 0
 //@ pred sameLastTail(a cell, b cell) = a.lastStyle == b.lastStyle && a.lastComb == b.lastComb
@@ -142,7 +149,7 @@ package tcell
 //@              cb.cells[y*cb.w+x].currComb == old(cb.cells[y*cb.w+x].currComb) && cb.cells[y*cb.w+x].currStyle == old(cb.cells[y*cb.w+x].currStyle) &&
 //@              cb.cells[y*cb.w+x].width == old(cb.cells[y*cb.w+x].width) && cb.cells[y*cb.w+x].lock == old(cb.cells[y*cb.w+x].lock)
 //@   ensures [notdirty] inRange(cb, x, y) && !dirty ==> !isDirty(cb.cells[y*cb.w+x])
-//@   ensures [width-inv] wi0 && runeWidth(0) == 0 ==> cbwidthinv(cb)
+//@   ensures [width-inv] wi0 && cellW(0) == 0 ==> cbwidthinv(cb)
 //@   ensures [widths] wd0 ==> cbwidths(cb)
 //@   modifies cb.cells[*]
 
@@ -198,8 +205,8 @@ package tcell
 //@   ensures [blank] inRange(cb, x, y) && (cb.cells[y*cb.w+x].width == 0 || cb.cells[y*cb.w+x].currMain < ' ') ==> result0 == ' ' && result3 == 1
 //@   ensures [rest] inRange(cb, x, y) ==> result1 == cb.cells[y*cb.w+x].currComb && result2 == cb.cells[y*cb.w+x].currStyle
 //@   ensures [width-of-rune] inRange(cb, x, y) && cellwidthok(cb.cells[y*cb.w+x]) ==>
-//@              (result0 == cb.cells[y*cb.w+x].currMain && result3 == runeWidth(result0) && result3 != 0) ||
-//@              (result0 == ' ' && result3 == 1 && (runeWidth(cb.cells[y*cb.w+x].currMain) == 0 || cb.cells[y*cb.w+x].currMain <= ' '))
+//@              (result0 == cb.cells[y*cb.w+x].currMain && result3 == cellW(result0) && result3 != 0) ||
+//@              (result0 == ' ' && result3 == 1 && (cellW(cb.cells[y*cb.w+x].currMain) == 0 || cb.cells[y*cb.w+x].currMain <= ' '))
 //@   modifies nothing
 
 //@ spec mergeColor(nw Color, old Color) Color = nw == ColorNone ? old : nw
@@ -211,7 +218,7 @@ package tcell
 //@   let wd0 = cbwidths(cb)
 //@   ensures [shape] shapeKept(cb, old(cb.w), old(cb.h), old(cb.cells))
 //@   ensures [all] forall k int :: 0 <= k && k < len(cb.cells) ==>
-//@              cb.cells[k].currMain == r && isNil(cb.cells[k].currComb) && cb.cells[k].width == runeWidth(r) &&
+//@              cb.cells[k].currMain == r && isNil(cb.cells[k].currComb) && cb.cells[k].width == cellW(r) &&
 //@              cb.cells[k].currStyle.fg == mergeColor(style.fg, old(cb.cells[k].currStyle.fg)) &&
 //@              cb.cells[k].currStyle.bg == mergeColor(style.bg, old(cb.cells[k].currStyle.bg)) &&
 //@              cb.cells[k].currStyle.attrs == style.attrs && cb.cells[k].currStyle.ulStyle == style.ulStyle &&
@@ -219,7 +226,7 @@ package tcell
 //@              cb.cells[k].lastMain == old(cb.cells[k].lastMain) && sameLastTail(cb.cells[k], old(cb.cells[k])) && cb.cells[k].lock == old(cb.cells[k].lock)
 //@   loop 1: invariant [idx] -1 <= rangeindex && rangeindex < len(cb.cells) && shapeKept(cb, old(cb.w), old(cb.h), old(cb.cells))
 //@           invariant [done] forall k int :: 0 <= k && k <= rangeindex ==>
-//@              cb.cells[k].currMain == r && isNil(cb.cells[k].currComb) && cb.cells[k].width == runeWidth(r) &&
+//@              cb.cells[k].currMain == r && isNil(cb.cells[k].currComb) && cb.cells[k].width == cellW(r) &&
 //@              cb.cells[k].currStyle.fg == mergeColor(style.fg, old(cb.cells[k].currStyle.fg)) &&
 //@              cb.cells[k].currStyle.bg == mergeColor(style.bg, old(cb.cells[k].currStyle.bg)) &&
 //@              cb.cells[k].currStyle.attrs == style.attrs && cb.cells[k].currStyle.ulStyle == style.ulStyle &&
@@ -250,7 +257,7 @@ package tcell
 //@              cb.cells[y*cb.w+x].currStyle.attrs == style.attrs && cb.cells[y*cb.w+x].currStyle.ulStyle == style.ulStyle &&
 //@              cb.cells[y*cb.w+x].currStyle.ulColor == style.ulColor && cb.cells[y*cb.w+x].currStyle.url == style.url && cb.cells[y*cb.w+x].currStyle.urlId == style.urlId
 //@   ensures [width] inRange(cb, x, y) ==> cb.cells[y*cb.w+x].width ==
-//@              (old(cb.cells[y*cb.w+x].currMain) != mainc ? runeWidth(mainc) : old(cb.cells[y*cb.w+x].width))
+//@              (old(cb.cells[y*cb.w+x].currMain) != mainc ? cellW(mainc) : old(cb.cells[y*cb.w+x].width))
 //@   ensures [keeps] inRange(cb, x, y) ==> cb.cells[y*cb.w+x].lock == old(cb.cells[y*cb.w+x].lock) && sameLastTail(cb.cells[y*cb.w+x], old(cb.cells[y*cb.w+x]))
 //@   ensures [selfdirty] inRange(cb, x, y) ==> cb.cells[y*cb.w+x].lastMain ==
 //@              (contentChanged(old(cb.cells[y*cb.w+x]), mainc, combc) ? 0 : old(cb.cells[y*cb.w+x].lastMain))
